@@ -118,6 +118,26 @@ func prgSampling(args []string) int {
 	v, ev = prgx.RejectionRuns(*seed)
 	res = append(res, samplingOut{"rejection-runs", ev, v})
 	res = append(res, samplingOut{"arguments", 20, prgx.SamplingArgs(*seed)})
+	// validity of every sampler on a grid of (n, m), many seeded generators
+	v, ev = prgx.ValidityGrid(*seed, *per)
+	res = append(res, samplingOut{"validity-grid", ev, v})
+	// algorithm-agnostic exact counting over the trie of source bytes
+	jobs := []prgx.ExploreJob{{"perm", 2, 2, 2}, {"perm", 3, 3, 2}, {"shuffle", 3, 3, 2}, {"subperm", 3, 1, 2}, {"subperm", 3, 2, 2}, {"subperm", 3, 3, 2}}
+	for _, n := range []int{2, 3, 4, 5, 7, 8, 9, 16, 17, 33, 100} {
+		jobs = append(jobs, prgx.ExploreJob{"samples", n, 1, 2}, prgx.ExploreJob{"samples", n, 2, 2}, prgx.ExploreJob{"subperm", n, 1, 2}, prgx.ExploreJob{"subperm", n, 2, 2})
+	}
+	if *exhHi > 4096 { // thorough tier: three source bytes
+		for _, n := range []int{3, 4, 5, 6, 9, 17, 48} {
+			jobs = append(jobs, prgx.ExploreJob{"samples", n, 3, 3}, prgx.ExploreJob{"subperm", n, 3, 3})
+		}
+		jobs = append(jobs, prgx.ExploreJob{"perm", 4, 4, 3}, prgx.ExploreJob{"shuffle", 4, 4, 3}, prgx.ExploreJob{"subperm", 4, 2, 3})
+	}
+	ej := make([]samplingOut, len(jobs))
+	parallel(len(jobs), func(i int) {
+		v, ev := prgx.RunExplore(jobs[i])
+		ej[i] = samplingOut{fmt.Sprintf("explore-%s-%d-%d-depth%d", jobs[i].Kind, jobs[i].N, jobs[i].M, jobs[i].Depth), ev, v}
+	})
+	res = append(res, ej...)
 	for i := range res {
 		if res[i].Violations == nil {
 			res[i].Violations = []prgx.Violation{}
